@@ -30,6 +30,17 @@ def _arr_eval(repo):
             txt = unparse(t.left)
             if txt.startswith("len(") or txt.startswith("num_"):
                 return True
+        # the same guard written the other way round:  `if len(x) == 0: return <empty result>`  /  `if not len(x):`
+        if isinstance(t, ast.Compare) and len(t.ops) == 1 and isinstance(t.ops[0], (ast.Eq, ast.LtE)) and \
+                isinstance(t.comparators[0], ast.Constant) and t.comparators[0].value == 0:
+            txt = unparse(t.left)
+            if txt.startswith("len(") or txt.startswith("num_"):
+                return False
+        if isinstance(t, ast.Compare) and len(t.ops) == 1 and isinstance(t.ops[0], ast.Lt) and \
+                isinstance(t.comparators[0], ast.Constant) and t.comparators[0].value == 1 and unparse(t.left).startswith(("len(", "num_")):
+            return False
+        if isinstance(t, ast.UnaryOp) and isinstance(t.op, ast.Not) and unparse(t.operand).startswith("len("):
+            return False
         return orig(t, env, ctx)
 
     ev.test = test
